@@ -26,7 +26,11 @@ static int kval(const void *k) { return k ? ((const struct kobj *)k)->value : 10
 static int kcmp(const void *a, const void *b, void *p) { e_check_priv(p); return e_cmp3(kval(a), kval(b)); }
 static int ko_id(const void *k) { const struct kobj *o = k; if (!k) return 0; if (o < &KO[0][0] || o > &KO[MAXK][2]) return -1; return (int)((o - &KO[0][0]) % 3); }
 static int k_of(const void *k) { const struct kobj *o = k; if (!k) return 0; if (o < &KO[0][0] || o > &KO[MAXK][2]) return -1; return (int)((o - &KO[0][0]) / 3); }
+/* Values are whatever the caller stores: value object #1 is the NULL pointer (a map used as a set), #2 an ordinary
+ * object.  An entry's value is therefore named 1 for NULL; only the end iterator has "no value" (0). */
+static void *vptr(int j) { return j == 1 ? NULL : (void *)&VO[j]; }
 static int vo_id(const void *v) { const int *o = v; if (!v) return 0; if (o < &VO[0] || o > &VO[2]) return -1; return (int)(o - &VO[0]); }
+static int vo_of_entry(const void *v) { return v ? vo_id(v) : 1; }
 
 static void drv_setup(int argc, char **argv)
 {
@@ -46,12 +50,18 @@ static struct kobj *kobj(int k, int j) { return (k == NULLK && j == 1 && NK >= N
 static int model_k(const void *key) { int i = k_of(key); if (!key && NK >= NULLK) return NULLK; return i <= 0 ? i : NK + 1 - i; }   /* key of a stored entry */
 static int ko_of_entry(const void *key) { return (!key && NK >= NULLK) ? 1 : ko_id(key); }
 
-static void it_json(jb_t *res, const cstl_map_iterator_t *i) { jb_printf(res, ",\"it\":[%d,%d]", i->val ? ko_of_entry(i->key) : ko_id(i->key), vo_id(i->val)); }   /* the end iterator has neither key nor value */
+/* entry: the iterator names an entry (its key and value may both be NULL pointers); otherwise it is the end iterator,
+ * which has neither key nor value */
+static void it_json(jb_t *res, const cstl_map_iterator_t *i, int entry)
+{
+    if (entry) jb_printf(res, ",\"it\":[%d,%d]", ko_of_entry(i->key), vo_of_entry(i->val));
+    else jb_printf(res, ",\"it\":[%d,%d]", ko_id(i->key), vo_id(i->val));
+}
 static void clear_cb(void *ip, void *p)
 {
     cstl_map_iterator_t *i = ip;
     e_check_priv(p);
-    ev_add("[\"c\",%d,%d,%d]", model_k(i->key), ko_of_entry(i->key), vo_id(i->val));
+    ev_add("[\"c\",%d,%d,%d]", model_k(i->key), ko_of_entry(i->key), vo_of_entry(i->val));
 }
 static void drv_apply(const vop_t *op, jb_t *res)
 {
@@ -60,11 +70,11 @@ static void drv_apply(const vop_t *op, jb_t *res)
     memset(&it, 0x5a, sizeof it);
     switch (op->k) {
     case 0:
-        a_begin(a[3] ? 1UL : 0UL); r = cstl_map_insert(&M, kobj(a[0], a[1]), &VO[a[2]], a[4] ? NULL : &it); a_end();
-        jb_printf(res, ",\"ret\":%d", r); it_json(res, &it);
+        a_begin(a[3] ? 1UL : 0UL); r = cstl_map_insert(&M, kobj(a[0], a[1]), vptr(a[2]), a[4] ? NULL : &it); a_end();
+        jb_printf(res, ",\"ret\":%d", r); it_json(res, &it, r >= 0);
         break;
-    case 1: a_begin(0); cstl_map_find(&M, kobj(a[0], 1), &it); a_end(); jb_puts(res, ",\"ret\":0"); it_json(res, &it); break;
-    case 2: a_begin(0); r = cstl_map_erase(&M, kobj(a[0], 2), a[4] ? NULL : &it); a_end(); jb_printf(res, ",\"ret\":%d", r); it_json(res, &it); break;
+    case 1: a_begin(0); cstl_map_find(&M, kobj(a[0], 1), &it); a_end(); jb_puts(res, ",\"ret\":0"); it_json(res, &it, !cstl_map_iterator_eq(&it, cstl_map_iterator_end(&M))); break;
+    case 2: a_begin(0); r = cstl_map_erase(&M, kobj(a[0], 2), a[4] ? NULL : &it); a_end(); jb_printf(res, ",\"ret\":%d", r); it_json(res, &it, r == 0); break;
     case 3: {
         cstl_map_iterator_t f;
         a_begin(0);
@@ -72,7 +82,7 @@ static void drv_apply(const vop_t *op, jb_t *res)
         if (cstl_map_iterator_eq(&f, cstl_map_iterator_end(&M))) { r = -1; it = *cstl_map_iterator_end(&M); }
         else { it = f; cstl_map_erase_iterator(&M, &f); r = 0; }
         a_end();
-        jb_printf(res, ",\"ret\":%d", r); it_json(res, &it);
+        jb_printf(res, ",\"ret\":%d", r); it_json(res, &it, r == 0);
         break;
     }
     case 4: a_begin(0); cstl_map_clear(&M, a[0] ? clear_cb : NULL, E_PRIV); a_end(); jb_puts(res, ",\"ret\":0"); break;
@@ -142,7 +152,7 @@ static void drv_ser(jb_t *b)
     jb_puts(b, ",\"ko\":[");
     for (k = 1; k <= NK; k++) jb_printf(b, "%s%d", k > 1 ? "," : "", slot[k] && !malformed ? ko_of_entry(slot[k]->key) : 0);
     jb_puts(b, "],\"vo\":[");
-    for (k = 1; k <= NK; k++) jb_printf(b, "%s%d", k > 1 ? "," : "", slot[k] && !malformed ? vo_id(slot[k]->val) : 0);
+    for (k = 1; k <= NK; k++) jb_printf(b, "%s%d", k > 1 ? "," : "", slot[k] && !malformed ? vo_of_entry(slot[k]->val) : 0);
     jb_printf(b, "],\"nlive\":%d,\"damage\":%s,\"bad\":%s}", a_live_count(), a_check() ? "true" : "false", malformed ? "true" : "false");
 }
 #define ADD(K, A0, A1, A2, A3) do { vop_t o_ = { K, { A0, A1, A2, A3 } }; ops[no++] = o_; } while (0)
